@@ -601,14 +601,18 @@ fn record(ctx: &Ctx, case: &Case, enumerated: bool, report: &mut Report) {
 
 /// all histories for one pattern set: every insertion order x every removal subset
 /// (via remove / via retain), then re-insertion of the removed values, with cache calls interleaved.
-fn enumerate_set(ctx: &Ctx, patterns: &[String], haystacks: &[String], variant: u64, report: &mut Report) {
+/// `part` / `parts`: the insertion orders are dealt out to `parts` workers (1 = the caller does them all)
+fn enumerate_set(ctx: &Ctx, patterns: &[String], haystacks: &[String], variant: u64, part: usize, parts: usize, report: &mut Report) {
     let k = patterns.len();
     let perms = permutations(k);
     let mut counter = variant;
-    for perm in &perms {
+    for (perm_index, perm) in perms.iter().enumerate() {
         for subset in 0..(1u32 << k) {
             for via_retain in [false, true] {
                 counter += 1;
+                if perm_index % parts != part {
+                    continue;
+                }
                 let ignore_case = counter % 2 == 0;
                 let cache_mode = (counter / 2) % 4;
                 let mut ops = Vec::new();
@@ -760,7 +764,7 @@ pub fn run(ctx: &Ctx, _args: &Args) -> i32 {
     let n_sets: usize = ctx.tier.pick(32, 48);
     let set_size_max: usize = ctx.tier.pick(4, 5);
     let n_histories: u64 = ctx.tier.pick(2_400, 30_000);
-    let n_big_sets: usize = ctx.tier.pick(0, 1); // k = 6 (720 orders x 64 subsets), thorough only
+    let n_big_sets: usize = ctx.tier.pick(0, 3); // k = 6 (720 orders x 64 subsets), thorough only
 
     let mut report = run_sharded(jobs, |shard, report| {
         let mut rng = Rng::stream(ctx.seed, 1000 + shard as u64);
@@ -783,13 +787,11 @@ pub fn run(ctx: &Ctx, _args: &Args) -> i32 {
             let parts: Vec<&Vec<Part>> = chosen.iter().map(|i| &cat[*i]).collect();
             let patterns: Vec<String> = parts.iter().map(|p| build(p)).collect();
             let haystacks = haystacks_for(&parts, &mut set_rng, 14);
-            enumerate_set(ctx, &patterns, &haystacks, set_index as u64, report);
+            enumerate_set(ctx, &patterns, &haystacks, set_index as u64, 0, 1, report);
             report.count("pattern_sets_enumerated");
         }
         for set_index in 0..n_big_sets {
-            if set_index % jobs != shard {
-                continue;
-            }
+            // every worker takes its share of the 720 insertion orders of every big set
             let mut set_rng = Rng::stream(ctx.seed, 9000 + set_index as u64);
             let start = set_rng.below(cat.len());
             let chosen: Vec<usize> = (0..6).map(|i| (start + i * (1 + set_index % 3)) % cat.len()).collect();
@@ -802,8 +804,10 @@ pub fn run(ctx: &Ctx, _args: &Args) -> i32 {
             let parts: Vec<&Vec<Part>> = chosen.iter().map(|i| &cat[*i]).collect();
             let patterns: Vec<String> = parts.iter().map(|p| build(p)).collect();
             let haystacks = haystacks_for(&parts, &mut set_rng, 6);
-            enumerate_set(ctx, &patterns, &haystacks, set_index as u64, report);
-            report.count("pattern_sets_enumerated_k6");
+            enumerate_set(ctx, &patterns, &haystacks, set_index as u64, shard, jobs, report);
+            if shard == 0 {
+                report.count("pattern_sets_enumerated_k6");
+            }
         }
         // random histories
         for _ in 0..(n_histories / jobs as u64) {
